@@ -149,6 +149,10 @@ def _gen_link(rng, prefix, budget, depth, max_depth, root, n_shared):
     link['feats'] = rng.randrange(len(FEATSETS))
     if rng.random() < 0.08:
       link['feats'] = 100 + rng.randrange(len(REJECTED_FEATSETS))
+  if kind == 'convert' and rng.random() < 0.2:
+    # the wrapper object was created earlier, elsewhere (by the main thread,
+    # inside a do_not_convert-like region), and is only *called* here
+    link['premade'] = True
   if kind in ('convert', 'internal', 'dnc', 'unspec') and rng.random() < 0.15:
     link['as_partial'] = True      # the wrapped callable is a functools.partial of the node function
   if kind == 'convert':
@@ -316,6 +320,16 @@ class Harness(object):
                   'fallback_nodes': 0, 'to_graph_failed': 0, 'status_checks': 0,
                   'restore_checks': 0, 'max_region_depth': 0}
     self.switch_in_region = False
+    # convert() wrappers created ahead of time, by this (main) thread, inside a disabled region
+    self.premade = {}
+    with ag_ctx.ControlStatusCtx(ag_ctx.Status.DISABLED):
+      for t in plan['threads']:
+        for link in _links_of(t):
+          if link.get('premade') and link['kind'] == 'convert':
+            key = (link['fn'], link['rec'], link['feats'], link['ur'])
+            if key not in self.premade:
+              self.premade[key] = malt.convert(recursive=link['rec'], optional_features=_feats(malt, link['feats']),
+                                               user_requested=link['ur'])(getattr(mod, 'node_' + link['fn']))
     self.abstract = set()
     self.clean = not plan['faults']
 
@@ -571,6 +585,12 @@ class Harness(object):
       return fn(spec)      # (plain kinds reach here only below a lambda node)
     if kind == 'convert':
       feats = _feats(malt, link['feats'])
+      if link.get('premade') and not link.get('as_partial'):
+        key = (link['fn'], link['rec'], link['feats'], link['ur'])
+        w = self.premade.get(key)
+        if w is not None:
+          self.stats['premade_wrapper_calls'] = self.stats.get('premade_wrapper_calls', 0) + 1
+          return w(spec)
       return malt.convert(recursive=link['rec'], optional_features=feats,
                           user_requested=link['ur'])(fn)(spec)
     if kind == 'dnc':
@@ -662,6 +682,18 @@ class Harness(object):
       return self.shared[int(c.split(':')[1]) % max(len(self.shared), 1)] if self.shared \
           else self.ag_ctx.ControlStatusCtx(self.ag_ctx.Status.UNSPECIFIED)
     return self.ag_ctx.ControlStatusCtx(getattr(self.ag_ctx.Status, c.split(':')[1]))
+
+
+def _links_of(tplan):
+  out = []
+
+  def walk(link):
+    out.append(link)
+    for c in link['spec']['children']:
+      walk(c)
+  for r in tplan['roots']:
+    walk(r)
+  return out
 
 
 def _feats(malt, idx):
